@@ -23,8 +23,11 @@ event ids):
     timers and the shutdown flush iterate over `allSegStores` only): Label.flush — the store's events become
     persistent and the store takes the next suffix (resetSegStore).  A store that is not in the table is never
     reached by any of them.
-  * removeStaleSegments (588-618): Label.evict — a registered store without records (RecordCount = 0; "idle for
-    15 minutes" is not modelled: the harness ages the store) is deleted from the table under allSegStoresLock.Lock.
+  * removeStaleSegments (588-618): Label.evict — a registered store without records (RecordCount = 0) is deleted
+    from the table under allSegStoresLock.Lock.  The idle horizon is not modelled: in the code as it is
+    `isSegstoreUnusedSinceTime(STALE_SEGMENT_DELETION_SECONDS)` passes 900 as a time.Duration, i.e. 900 ns — every
+    store without records qualifies (known finding create/lost-ack/evicted-before-append); the harness moves
+    lastUpdated into the past all the same, so that the replay survives a repair of the unit.
 
 `get`, `lock`, `flush`, `evict` need allSegStoresLock and are NOT ENABLED while a call holds it (`St.lock`); a
 label whose step is not enabled leaves the state unchanged.  Every other step is always enabled.
